@@ -25,6 +25,9 @@ package main
 // it in the command's one-line form), standard error, the dynamic type of `args`
 // (scripts never ask for it), error messages that span several lines (excluded
 // while c18PendingFix_multiLineDiagnostic), interactive mode.
+//
+// Round 9 (c18_r9.go): phases err-shapes, sigfd and overlap, with a library
+// driver that also tells when the script itself ended the process.
 
 import (
 	"bytes"
@@ -1466,6 +1469,12 @@ func init() {
 				nR6 = len(c18FixedR6) + 9000
 				chunkR6 = 250
 			}
+			nErr, nSig, nOvl := len(c18FixedErrShapes)+70, len(c18FixedSigFd)+36, c18FixedOverlap+14
+			chunkR9, chunkOvl := 8, 2
+			if tier == "thorough" {
+				nErr, nSig, nOvl = len(c18FixedErrShapes)+6000, len(c18FixedSigFd)+2500, c18FixedOverlap+400
+				chunkR9, chunkOvl = 250, 20
+			}
 			return fw.Plan{
 				Level: "exploration",
 				Rule: "every script is run three ways: by the library driver (vm.Execute in a child of the worker, environment = args + core.Import + linked packages, stdout captured), by the built anko executable as a file argument with 0-3 trailing arguments, and by the executable with -e (same source, same positional arguments). " +
@@ -1473,6 +1482,7 @@ func init() {
 					"phase gen: PRNG template programs (prints through println/print/printf, control flow, functions, try/catch, maps, modules, imports from the safe list, args observers): 40% unchanged, 28% with garbage inserted at / source truncated at a PRNG-chosen token, 28% with a failing statement inserted after k top-level statements, 4% unreadable paths. " +
 					"phase diag-env (c18_r5.go): hand-written scripts first, then PRNG scripts of two families, each placed at top level / in a function / a loop / a closure / a try whose catch prints or throws again / a try with finally / after a partial line: (A) failing scripts whose error text carries script data with a '%' in it (a trailing %, %d, %s, %!, %[1]d, ...; thrown strings and Go error values, import/load of missing names, Go errors and panics quoting an operand, an argument of the command line), (B) scripts that use or ask defined() about a name no scope defines: names of bundled packages without an import (strings, os, fmt, json, ...), names of the command's own source (e, file, version, ...), in expression, call, member, assignment, loop, switch and type positions, next to scripts that import the package under that name. " +
 					"phase bytes-cwd-cr (c18_r6.go): hand-written scripts first, then PRNG scripts of three families: (A) files whose bytes a text-minded reader might touch - raw string literals spanning lines under CR LF / lone CR / LF CR / mixed line ends (length, bytes, quoted form printed; compared with escaped spellings; a throw that depends on the length), lone CRs between tokens, trailing blanks, BOM, ^Z, no final line end; (B) the command started in a working directory other than the script's (script named by absolute path, ../proj/x, proj/x, a path with .., a symbolic link; the script's own directory as control) with scripts that load / read / stat / open / glob relative paths existing only next to the script, only in the working directory, in both or nowhere, loaded files loading again - the library driver runs in the same working directory; (C) failing scripts whose error text holds CR without LF, CR LF, LF CR (thrown strings, Go errors, import/load names, command-line arguments, raw literals with the bytes, Go panics) at top level / in functions / loops / catch blocks, and unreadable paths with such names. In this phase the diagnostic line must also contain the library's error text in the command's one-line form. " +
+					c18R9Rule +
 					"An evaluation = one CLI run compared with the library run; non-trivial when the library printed something or returned an error; distinct = distinct (mode, source, args).",
 				Assumptions: []string{
 					"the library driver's environment (env.NewEnv, Define args []string, core.Import, blank import of packages) is 'an equally prepared environment'",
@@ -1484,12 +1494,16 @@ func init() {
 					"error texts spanning several lines are excluded while c18PendingFix_multiLineDiagnostic is set (reported defect); library panics and interactive mode are outside the domain",
 					"'the bundled packages available' means importable with import(): a name that no scope defines is undefined for the command exactly when it is for vm.Execute in the library driver's environment, whatever the name is",
 					"a mismatch is reported only when it reproduces on a second run of both sides (otherwise inconclusive)",
+					c18R9Assumptions[0], c18R9Assumptions[1], c18R9Assumptions[2], c18R9Assumptions[3],
 				},
 				Phases: []fw.Phase{
 					{Name: "fixed", Cases: nf, Chunk: (nf + 15) / 16, TimeoutS: 900, NeedsAnko: true},
 					{Name: "gen", Cases: nGen, Chunk: chunk, TimeoutS: 1800, NeedsAnko: true},
 					{Name: "diag-env", Cases: nR5, Chunk: chunk, Jobs: 4, MemMB: 3072, TimeoutS: 1800, NeedsAnko: true},
 					{Name: "bytes-cwd-cr", Cases: nR6, Chunk: chunkR6, Jobs: 4, MemMB: 3072, TimeoutS: 1800, NeedsAnko: true},
+					{Name: "err-shapes", Cases: nErr, Chunk: chunkR9, Jobs: 4, MemMB: 3072, TimeoutS: 1800, NeedsAnko: true},
+					{Name: "sigfd", Cases: nSig, Chunk: chunkR9, Jobs: 4, MemMB: 3072, TimeoutS: 1800, NeedsAnko: true},
+					{Name: "overlap", Cases: nOvl, Chunk: chunkOvl, Jobs: 3, MemMB: 4096, TimeoutS: 1800, NeedsAnko: true},
 				},
 			}
 		},
@@ -1505,6 +1519,17 @@ func init() {
 			}
 			if c.Phase == "bytes-cwd-cr" {
 				c18RunR6(x, c)
+				return
+			}
+			switch c.Phase {
+			case "err-shapes":
+				c18RunErrShapes(x, c)
+				return
+			case "sigfd":
+				c18RunSigFd(x, c)
+				return
+			case "overlap":
+				c18RunOverlap(x, c)
 				return
 			}
 			if c.Phase == "fixed" {
